@@ -14,7 +14,8 @@ EXPLANATION = (
     'explicit panic (unwrap, expect, panic!, unreachable!, indexing) in the boundary modules is a row of a frozen table: lock poisoning, '
     'EffectId overflow, the unreachable after the discriminant test, and the documented panic on an id that names no outstanding request '
     '(outside the property\'s input domain); R12.e both bincode deserialisers are built with from_slice, whose length prefixes are '
-    'checked against the remaining input. Panics, hangs or allocation inside user Deserialize impls and serde_json are not decided.')
+    'checked against the remaining input; R12.f errors that blame the input (DeserializeEvent, DeserializeOutput, ProcessResponse) are produced only '
+    'before any call that can enter the core, so a rejected input has not been applied. Panics, hangs or allocation inside user Deserialize impls and serde_json are not decided.')
 
 BOUNDARY_ERRORS = ('crux_core::bridge::BridgeError', 'erased_serde::error::Error', 'crux_core::core::resolve::ResolveError',
                    'bincode::error::ErrorKind', 'alloc::boxed::Box<bincode::error::ErrorKind>')
@@ -115,6 +116,41 @@ def check(ctx, rep):
                             ok = True
         rep.expect('R12.b', ok, 'process-after-ok-resume', 'Core::process is reachable from resume only along the Ok edge of `?`',
                    'BridgeWithSerializer::process runs the core although resume returned an error')
+    # R12.f: no input-caused rejection after the core has been entered
+    rep.rule('R12.f', 'an error that blames the input (DeserializeEvent / DeserializeOutput / ProcessResponse) is only produced before the core is entered', floor=3)
+    from rules.common import Summaries
+    sm = Summaries([core])
+    n_sites = 0
+    for f in fns:
+        entering = sm.sites(f, ['crux_core::core::Core::process_event', 'crux_core::core::Core::process'], 'may')
+        after = set()
+        for b in entering:
+            after |= f.reachable_after(b)
+        for bb in f.normal_blocks():
+            blk = f.blocks[bb]
+            names = []
+            for st in blk['st']:
+                if st['k'] != 'assign':
+                    continue
+                rv = st['rv']
+                if rv['k'] == 'agg' and path_matches(rv.get('adt'), 'crux_core::bridge::BridgeError') and rv['variant'] in ('DeserializeEvent', 'DeserializeOutput', 'ProcessResponse'):
+                    names.append(rv['variant'])
+            t = blk['t']
+            for a in t.get('args', []) or []:
+                fnp = a.get('fn') or ''
+                if 'bridge::BridgeError::' in fnp and last_seg(fnp) in ('DeserializeEvent', 'DeserializeOutput', 'ProcessResponse'):
+                    names.append(last_seg(fnp))
+            if t['k'] == 'call' and call_matches(t, ['core::convert::From::from', 'core::ops::try_trait::FromResidual::from_residual']) and \
+                    'ResolveError' in ' '.join(t.get('targs') or []) and 'BridgeError' in ' '.join(t.get('targs') or []):
+                names.append('ProcessResponse(from)')
+            for nme in names:
+                n_sites += 1
+                key = '%s|%s' % (f.kpath, nme)
+                rep.expect('R12.f', bb not in after, key, 'produced before any call that can enter the core',
+                           '%s produces the input error %s after the core may already have been entered (process_event / process ran): '
+                           'the input is rejected although it was applied' % (f.where(bb), nme))
+    if n_sites < 3:
+        rep.bad('R12.f', 'sites', 'expected at least 3 sites producing input errors, found %d' % n_sites)
     # R12.d
     used = set()
     for f in fns:
@@ -140,8 +176,12 @@ def check(ctx, rep):
             c = norm(t.get('callee') or '')
             if c.startswith('bincode::') and 'Deserializer' in c:
                 n += 1
-                rep.expect('R12.e', last_seg(c) == 'from_slice', '%s|%s' % (f.kpath, last_seg(c)), 'Deserializer::from_slice(&[u8], options)',
-                           '%s builds a bincode deserialiser with %s: only the slice reader bounds length prefixes by the remaining input' % (f.where(bb), c))
+                bounded = last_seg(c) == 'from_slice'
+                if not bounded and t['args']:
+                    # a reader is acceptable when its options carry an explicit byte limit
+                    bounded = any(o.kind == 'call' and call_matches(o.term, ['bincode::config::Options::with_limit']) for o in origins(f, t['args'][-1]))
+                rep.expect('R12.e', bounded, '%s|%s' % (f.kpath, last_seg(c)), 'Deserializer::from_slice(&[u8], options) or a reader with with_limit(..)',
+                           '%s builds a bincode deserialiser with %s and no byte limit: a corrupted length prefix can request an unbounded allocation' % (f.where(bb), c))
     if n < 2:
         rep.bad('R12.e', 'sites', 'expected 2 bincode deserialisers in the bridge, found %d' % n)
     rep.assume('bincode 1.3 SliceReader rejects a length prefix larger than the remaining input before allocating')
